@@ -37,6 +37,41 @@ TREE = {
     'x/y.py': 'x = 1\nz = 2\n',
 }
 
+
+
+def _wide(n_lines=140):
+    """a module with several statements per line and long lines: every line binds names at columns 0..90
+    -> (text, {line: [(name, col), ...]}).  Deterministic."""
+    lines, table = [], {}
+    for ln in range(1, n_lines + 1):
+        a, b, c = 'w%da' % ln, 'w%db' % ln, 'w%dc' % ln
+        g1 = ' ' * (3 + (ln * 7) % 23)
+        g2 = ' ' * (1 + (ln * 5) % 31)
+        form = ln % 5
+        if form == 0:
+            text = '_p = %d;%s%s = 1;%s%s = "x" * 3;%s%s = [%s, 2]' % (ln, g1, a, g2, b, g1, c, a)
+        elif form == 1:
+            text = 'def%s%s%s(): pass' % (g1, g2, a)
+        elif form == 2:
+            text = 'class%s%s%s%s: pass' % (g2, g1, g2, a)
+        elif form == 3:
+            text = '(%s,%s%s) = 1, 2;%s%s%s = %s' % (a, g1, b, g2, g1, c, a)
+        else:
+            text = '%s = %d;%s%s%s%s = %s = str if %s else bytes' % (a, ln, g1, g2, g2, b, c, a)
+        lines.append(text)
+        found = []
+        for nm in (a, b, c):
+            i = text.find(nm)
+            if i >= 0:
+                found.append((nm, i))
+        table[ln] = found
+    return '\n'.join(lines) + '\n', table
+
+
+WIDE_TEXT, WIDE_TABLE = _wide()
+TREE['wide.py'] = WIDE_TEXT
+TREE['shim.py'] = 'import sys\nPY3 = sys.version_info[0] >= 3; text_type = str if PY3 else bytes\n'
+
 # (module, members importable with `from module import member`)
 MODULES = [
     ('os', ['path', 'sep', 'getcwd', 'environ']),
@@ -719,6 +754,7 @@ class Gen(object):
             tops.append(self.read([n]) + '\n')
         tops.append('late = 1\n')
         tops.append('zq, late = xs\n' if r.random() < 0.5 else 'def zq(): pass\n')
+        wide_plan = r.random() < 0.7
         # characters that splitlines() treats as line ends
         if r.random() < 0.14:
             self.feat.add('formfeed')
@@ -741,6 +777,38 @@ class Gen(object):
                     tops.insert(i, '# ---- %s ----\n' % ch)
                 else:
                     tops.insert(i, "_page = 'a%sb'\n" % ch)
+        if wide_plan:
+            # reads of names imported from the long-lined module `wide`, placed on the SAME line numbers as their
+            # definitions there (line 1 is the import itself, then two early reads, then reads at the end)
+            self.feat.add('read-on-same-line-number-as-definition-in-other-file')
+            wanted = []
+
+            def read_line(ln):
+                nm, col = r.choice(WIDE_TABLE[ln])
+                wanted.append(nm)
+                x = r.random()
+                if x < 0.35:
+                    return nm + '\n'
+                if x < 0.7:
+                    return 'print(' + nm + ')\n'
+                return r.choice(['_ = ', 'xs = xs; _ = ', 'late = late ;  ']) + nm + r.choice(['', ' ; pass', '  # ' + nm]) + '\n'
+            early = [read_line(2), read_line(3)]
+            n = ''.join(tops).count('\n') + 1 + len(early)      # lines before the reads appended at the end
+            latecomers = []
+            for k in range(r.randint(2, 5)):
+                ln = n + 1 + k
+                if ln in WIDE_TABLE:
+                    latecomers.append(read_line(ln))
+                else:
+                    break
+            style = r.random()
+            if style < 0.5:
+                imp = 'from wide import ' + ', '.join(wanted)
+            elif style < 0.8:
+                imp = 'from wide import(' + ','.join(wanted) + ')'
+            else:
+                imp = 'from  wide  import ' + ' , '.join(wanted) + '  # ' + wanted[-1]
+            tops = [imp + '\n'] + early + tops + latecomers
         text = ''.join(tops)
         if r.random() < 0.05:
             self.feat.add('crlf')
